@@ -64,7 +64,7 @@ RULE = (
 )
 TRUSTED_BASE = [
     "C++ semantics of the emitted statement subset (lean/FaxVerif/Cpp/Sem.lean): flat environment with (re)declaration on block entry, class variables persisting across events — modelled, not verified against a C++ compiler in the quick tier",
-    "tools/cparse.py (text of the per-event body -> statement AST) and tools/qgen.py (package assembly)",
+    "tools/cparse.py (text of the per-event body -> statement AST — compared on every program of every run with the Lean parser Cpp/Parse.lean, whose round trip with the printer is the theorem C02.parse_render (stream parse-tie: equal trees required)) and tools/qgen.py (package assembly)",
     "EDM accessors and user-supplied C++ are pure functions of their receiver (opaque user lines are rejected by the checker: such programs are counted as 'not covered', not as held)",
 ]
 ASSUMPTIONS = ["a faulting event ends the job (exception / failed status under EventLoop and cmsRun)"]
@@ -253,6 +253,9 @@ def gen_cases(ctx, n):
     return cases
 
 
+_PROGRAMS = []  # every program interpreted by this check (input of the parse tie)
+
+
 def run_stream(ctx, cases, stream):
     revs = []
     for c in cases:
@@ -270,6 +273,8 @@ def run_stream(ctx, cases, stream):
             ctx.count("refused:" + c.result["error"])
             ctx.case(c.key(), False)
             continue
+        if not isinstance(c, LazyCase):
+            _PROGRAMS.append((c.backend, c.source(), c.result))
         cgroup.count_case(ctx, c)
         ctx.case(c.key(), cgroup.nontrivial(c), {"backend": c.backend, "query": c.source(), "rows_first_event": (c.answer or {}).get("exec", [{}])[0]})
         judge(ctx, c, r)
@@ -431,6 +436,13 @@ def run(ctx):
     run_stream(ctx, gen_cases(ctx, n), "generated")
     lazy_stream(ctx, 60 if ctx.tier == "quick" else 300)
     ctx.extra_cov["exhaustive"] = False
+    # N-version tie of the text reader: tools/cparse.py vs the Lean parser (C02.parse_render) on every program interpreted here
+    import c02_parsetie
+
+    progs, _PROGRAMS[:] = list(_PROGRAMS), []
+    st = c02_parsetie.run_stream(ctx, progs, 0, report=True)
+    ctx.count("parse-tie:programs(cparse.py vs Lean parser)", len(progs))
+    ctx.count("parse-tie:disagreements", st.get("disagreements", 0))
 
 
 def search(ctx, broken):
